@@ -12,7 +12,8 @@
 (*       rotations), alo, ahi (Area of the base loop -/+ documented error) *)
 (* area  area, lo, hi (expected -/+ documented error), norm, ta, small     *)
 (*       (model: "yes" below a hemisphere, "no" complement, "na"), w2/tri  *)
-(*       (certificate inputs), after = <<IsNormalized after Normalize(),   *)
+(*       (certificate inputs), gblo, gbhi (2*pi - area -/+ documented     *)
+(*       errors: Gauss-Bonnet), after = <<IsNormalized after Normalize(),  *)
 (*       boundary: "same" | "reversed" | "other">>                         *)
 (* pair  sum (Area(loop) + Area(inverse)), lo, hi (4*pi -/+ error)         *)
 (* poly  area, ssum (signed sum of loop areas in loop order), lo, hi       *)
@@ -60,8 +61,9 @@ Small(e) ==
 AreaRej(e) ==
     LET s == Small(e)
     IN  If(~Within(e.area, e.lo, e.hi), "area-vs-expected")
-        \cup If(s = "yes" /\ ~(e.norm /\ FLess(e.area, TWOPI) /\ FLess(ZERO, e.ta)), "classification-small")
-        \cup If(s = "no" /\ ~(~e.norm /\ FLess(TWOPI, e.area) /\ FLess(e.ta, ZERO)), "classification-large")
+        \cup If(s = "yes" /\ ~(e.norm /\ FLess(e.area, TWOPI) /\ FLess(ZERO, e.ta)), "classification-below-hemisphere")
+        \cup If(s = "no" /\ ~(~e.norm /\ FLess(TWOPI, e.area) /\ FLess(e.ta, ZERO)), "classification-above-hemisphere")
+        \cup If(~Within(e.ta, e.gblo, e.gbhi), "turning-angle-vs-area")
         \cup If(~e.after[1], "normalize-not-normalized")
         \cup If(s = "yes" /\ e.after[2] # "same", "normalize-changed-small-loop")
         \cup If(s = "no" /\ e.after[2] # "reversed", "normalize-boundary")
